@@ -21,6 +21,7 @@ const (
 	OpSync
 	OpTruncate
 	OpMark // inserted by the harness, no effect
+	OpSyncFail // a sync that reported an error (what it made durable is unknown to the caller)
 )
 
 // Op is one logged vfs level operation.
@@ -318,6 +319,9 @@ func (d *Disk) Sync(flags txfile.VerifSyncFlag) error {
 	defer d.mu.Unlock()
 	a := d.act("sync")
 	if a == ActErr || a == ActShort {
+		if d.KeepLog {
+			d.Log = append(d.Log, Op{Kind: OpSyncFail})
+		}
 		return ErrInjected
 	}
 	d.durable = append(d.durable[:0], d.data...)
@@ -326,6 +330,11 @@ func (d *Disk) Sync(flags txfile.VerifSyncFlag) error {
 	}
 	d.npend = len(d.Log)
 	if a == ActAfter {
+		if d.KeepLog {
+			// everything became durable, but the caller is told the sync failed
+			d.Log[len(d.Log)-1].Kind = OpSyncFail
+			d.Log[len(d.Log)-1].Label = "after"
+		}
 		return ErrInjected
 	}
 	return nil
